@@ -144,6 +144,55 @@ def value_grid_correspondence():
     return len(exp), bad
 
 
+def label_correspondence():
+    """the element-name choice of the writer (_derive_record_label) and the reader's inverse against the model
+    (XmlLabel.v), on ordered attribute lists: for every subtype, the qualified name under two prefixes, the plain URI,
+    the string and an unrelated type, in every order, on the subtype's class and on another class"""
+    import itertools
+    from harness import common
+    from harness.sexp import dumps, loads
+    from prov.serializers.provxml import ProvXMLSerializer, FULL_NAMES_MAP
+    from prov.constants import PROV_BASE_CLS, PROV_TYPE, PROV_LABEL, PROV
+    from prov.identifier import Namespace, QualifiedName, Identifier
+    from prov.model import ProvDocument
+    ser = ProvXMLSerializer(None)
+    PROVU = PROV.uri
+    ex = Namespace("ex", "http://example.org/")
+    p2 = Namespace("p2", PROVU)
+    reqs, exp = [], []
+    subs = sorted((k for k in PROV_BASE_CLS if PROV_BASE_CLS[k] != k), key=lambda q: q.localpart)
+    for sub in subs:
+        l = sub.localpart
+        pool = [(PROV_TYPE, PROV[l]), (PROV_TYPE, p2[l]), (PROV_TYPE, Identifier(PROVU + l)), (PROV_TYPE, "prov:" + l),
+                (ex["k"], PROV[l]), (PROV_TYPE, ex["T"]), (PROV_LABEL, "x")]
+        base = PROV_BASE_CLS[sub]
+        other = PROV["Activity"] if base != PROV["Activity"] else PROV["Entity"]
+        for n in (1, 2, 3):
+            for combo in itertools.permutations(pool, n):
+                for kind in (base, other):
+                    attrs = list(combo)
+                    label = ser._derive_record_label(kind, attrs)
+                    got = ["some", label, [[I.sx_qn(k), I.sx_value(v)] for k, v in attrs]]
+                    reqs.append(dumps(["xmllabel", kind.localpart, [[I.sx_qn(k), I.sx_value(v)] for k, v in combo]]))
+                    exp.append(("write", kind.localpart, repr(combo), got))
+    for rec_type, label in sorted(FULL_NAMES_MAP.items(), key=lambda kv: kv[1]):
+        text = ('<prov:document xmlns:prov="%s" xmlns:ex="http://example.org/"><prov:%s prov:id="ex:x"/></prov:document>'
+                % (PROVU, label))
+        d = ProvDocument.deserialize(content=text, format="xml")
+        r = d.get_records()[0]
+        types = sorted(t.localpart for t in r.get_asserted_types() if isinstance(t, QualifiedName) and t.namespace.uri == PROVU)
+        got = ["some", r.get_type().localpart, (["some", types[0]] if len(types) == 1 else ["none"] if not types else ["many"] + types)]
+        reqs.append(dumps(["xmlreadlabel", label]))
+        exp.append(("read", label, text, got))
+    outs = common.run_model_batch(reqs)
+    bad = []
+    for (what, k, inp, got), o in zip(exp, outs):
+        m = loads(o)
+        if m != got:
+            bad.append({"direction": what, "kind_or_label": k, "input": inp[:600], "implementation": got, "model": m})
+    return len(exp), bad
+
+
 def classify(f, ops):
     c = c01.classify(f, ops)
     return {"C01-F1": "C02-F1", "C01-F2": "C02-F2", "C01-F3": None}.get(c)
@@ -166,6 +215,13 @@ def run(tier, seed, log, model_runs=True, enlarged=False):
         for b in bad[:2]:
             res["disagreements"].append({"first_difference": repr(b)[:900],
                                          "theorem": "correspondence Xml.xml_emit ~ provxml.serialize_bundle (value level)"})
+        n, bad = label_correspondence()
+        res["coverage"]["element_name_cases"] = n
+        log("element names: %d cases, %d disagreements" % (n, len(bad)))
+        for b in bad[:2]:
+            res["disagreements"].append({"first_difference": repr(b)[:1200],
+                                         "theorem": "correspondence XmlLabel.record_label / read_label ~ provxml._derive_record_label / "
+                                                    "deserialize_subtree (C02_element_name_conserves)"})
     return res
 
 
